@@ -656,6 +656,13 @@ func (c *Ctx) zero(s *Sort, gt types.Type) Term {
 	case KPtr:
 		return c.nilPtr(s)
 	case KSlice:
+		if gt != nil {
+			if a, ok := types.Unalias(gt).Underlying().(*types.Array); ok {
+				// arrays: fixed length, zero elements
+				arr := fmt.Sprintf("((as const (Array Int %s)) %s)", s.Elem.Name, c.zero(s.Elem, a.Elem()).S)
+				return Term{S: fmt.Sprintf("(%s %d %s)", s.Ctor, a.Len(), arr), Sort: s, Go: gt}
+			}
+		}
 		n := "zero." + s.Name
 		if !c.declared[n] {
 			c.declared[n] = true
